@@ -1,7 +1,7 @@
 (* C09 — BACnet/IP frames carry a correct length and round-trip all twelve functions.
    Property theorems only; the model is Bac.Bvll (bvll.py + AnnexJCodec, octets below the codec),
-   proofs live in Bac.BvllFacts / BvllRound / BvllTotal. *)
-From Bac Require Import Base Bvll BvllFacts BvllRound BvllTotal.
+   proofs live in Bac.BvllFacts / BvllRound / BvllTotal / BvllStable. *)
+From Bac Require Import Base Bvll BvllFacts BvllRound BvllTotal BvllStable.
 Open Scope N_scope.
 
 (* every frame the encoder emits — whatever the parameters, whatever bvlciLength the object held
@@ -147,6 +147,20 @@ Theorem C09_decode_total : forall bs,
   (exists m, dec_frame bs = Ok m) \/ dec_frame bs = Err DecodingError.
 Proof. exact dec_frame_total. Qed.
 Print Assumptions C09_decode_total.
+
+(* whatever is accepted from a datagram of octets is a well-formed message (six-octet addresses,
+   masks < 2^32, 16-bit fields) ... *)
+Theorem C09_decoded_wellformed : forall bs m,
+  bytes_ok bs = true -> dec_frame bs = Ok m -> wf_msg m = true.
+Proof. exact dec_frame_wf. Qed.
+Print Assumptions C09_decoded_wellformed.
+
+(* ... which re-encodes (never longer than the datagram: fixed-size classes ignore trailing octets)
+   to a frame that decodes to the same message *)
+Theorem C09_reencode_stable : forall bs m, bytes_ok bs = true -> dec_frame bs = Ok m ->
+  exists bs', enc_frame m = Ok bs' /\ dec_frame bs' = Ok m /\ lenN bs' <= lenN bs.
+Proof. exact reencode_stable. Qed.
+Print Assumptions C09_reencode_stable.
 
 (* the registry read from the source maps exactly the twelve function codes to the twelve classes *)
 Theorem C09_registry : forall f k, lookup_fn f bvl_pdu_types = Some k <-> fn_of_kind k = f.
